@@ -51,6 +51,34 @@ func (s *OutputBuilder) Build() string {
 	return s.builder.String()
 }
 
+// quoteAlias renders an output alias. Aliases are the one position where a user-chosen name reaches the
+// statement as an identifier: anything that is not a plain identifier is emitted as a quoted identifier
+// (a Cypher backtick-escaped name is unescaped first), so that its characters cannot end the identifier.
+func quoteAlias(alias pgsql.Identifier) string {
+	name := alias.String()
+	plain := name != ""
+
+	for idx, char := range name {
+		isLetter := char == '_' || (char >= 'a' && char <= 'z') || (char >= 'A' && char <= 'Z')
+		isDigit := char >= '0' && char <= '9'
+
+		if !isLetter && !(isDigit && idx > 0) {
+			plain = false
+			break
+		}
+	}
+
+	if plain {
+		return name
+	}
+
+	if len(name) >= 2 && strings.HasPrefix(name, "`") && strings.HasSuffix(name, "`") {
+		name = strings.ReplaceAll(name[1:len(name)-1], "``", "`")
+	}
+
+	return "\"" + strings.ReplaceAll(name, "\"", "\"\"") + "\""
+}
+
 func formatSlice[T any, TS []T](builder *OutputBuilder, slice TS, dataType pgsql.DataType) error {
 	builder.Write("array [")
 
@@ -446,7 +474,7 @@ func formatNode(builder *OutputBuilder, rootExpr pgsql.SyntaxNode) error {
 
 		case pgsql.AliasedExpression:
 			if typedNextExpr.Alias.Set {
-				exprStack = append(exprStack, typedNextExpr.Alias.Value)
+				exprStack = append(exprStack, pgsql.FormattingLiteral(quoteAlias(typedNextExpr.Alias.Value)))
 				exprStack = append(exprStack, pgsql.FormattingLiteral(" as "))
 				exprStack = append(exprStack, typedNextExpr.Expression)
 			} else {
